@@ -20,6 +20,31 @@ CHECKS = {
                   "typhon; recorded traces validated by TLC (IntervalTrace)"),
 }
 
+CHECKS["C01"] = dict(
+    text="FindDesign.tla (directory walk with per-level pruning, year-only fallback, fixed look-back spans) is model-checked "
+         "by TLC against the declarative FindSpec of FindProps.tla for all populations/queries of the bound and per layout; "
+         "the precondition's necessity is shown by an expected counterexample. FindSpec is then the oracle for replaying "
+         "TLC-enumerated populations x every period/filter/exclusion on real directory trees under 5 calendar embeddings x "
+         "11 layouts x name styles, and recorded random sessions (find, bundles, `in`, len) are validated by FindTrace.tla.",
+    ref="DESIGN.md §5 C01",
+    note="Trusted: TLC, FindProps (~100 lines), the tick->datetime embedding and path->id projection of the harness. Bounds: "
+         "<=3-4 files on 10-12 ticks exhaustively/sampled, random sessions up to 14 files on 16 ticks. Zip/remote file "
+         "systems and user regexes beyond fixed tag values are not exercised; frequency bundles only with sort=True.",
+    technique="TLA+ spec (FindProps/FindDesign) model-checked with TLC; TLC-generated cases replayed into typhon.files.FileSet; "
+              "recorded traces validated by TLC (FindTrace)")
+CHECKS["C16"] = dict(
+    text="ClosestOK (FindProps.tla) defines the set of admissible answers of find_closest (covering file within one "
+         "sub-directory period, else nearest by min(|t0-t|,|t1-t|), none otherwise; a closed neighbourhood is accepted as "
+         "well). TLC prints that set for every half tick of every enumerated population; the real find_closest / fileset[t] "
+         "is replayed on real trees (layouts with and without temporal sub-directories, end fields, user placeholder, "
+         "templates that make the exact-name short cut fire), and random sessions with filters and exclusions are validated "
+         "by FindTrace.tla.",
+    ref="DESIGN.md §5 C16",
+    note="Trusted: TLC, FindProps!ClosestOK, harness projection. Bounds: <=3 files on 10-12 ticks, every half tick; random "
+         "sessions up to 10 files.",
+    technique="TLA+ spec (FindProps!ClosestOK) evaluated by TLC as oracle; cases replayed into FileSet.find_closest; recorded "
+              "traces validated by TLC (FindTrace)")
+
 NOT_APPLICABLE = {
     "C07": "Every clause concerns floating-point accuracy of sin/cos/arctan2/sqrt compositions or convergence of a "
            "fixed-point iteration over a continuous domain; TLA+/TLC has no reals or transcendental functions and there "
